@@ -177,7 +177,12 @@ def render(n) -> str:
     if k == "diagf":
         return f"diag({render(n[1])})"
     if k in ("arr", "arr2"):
-        return f"np.array({n[1]})"
+        form = n[2] if len(n) > 2 else None
+        if form in (None, "C"):
+            return f"np.array({n[1]})"
+        if form in ("F", "T", "flipud", "fliplr", "strided"):
+            return f"np.array({n[1]})<{form}-layout>"
+        return f"np.array({n[1]}, dtype=np.{form})"
     if k in ("list", "list2"):
         return repr(n[1])
     if k == "tuple":
